@@ -77,6 +77,20 @@ pub fn stub_main() -> ! {
                 }
                 _ => {}
             },
+            "stderr" => {
+                // what real formatters print when they fail: several lines, with backticks, quotes and code excerpts
+                let lines: Vec<String> = match arg {
+                    "1" => vec!["error: 'rustfmt' is not installed for the toolchain".into()],
+                    "2" => vec!["error: 'rustfmt' is not installed for the toolchain 'stable-x86_64'".into(), "To install, run `rustup component add rustfmt`".into()],
+                    "rust" => vec!["error: expected one of `!` or `::`, found `}`".into(), " --> <stdin>:1:10".into(), "  |".into(), "1 | pub mod bind_groups { pub struct X ; }".into(), "pub const LEAKED: u32 = 1;".into()],
+                    _ => (0..4000).map(|i| format!("warning: line {i} of a very long diagnostic \" ' ` {{ }} //")).collect(),
+                };
+                let mut e = std::io::stderr();
+                for l in lines {
+                    let _ = writeln!(e, "{l}");
+                }
+                let _ = e.flush();
+            }
             "sleep" => std::thread::sleep(std::time::Duration::from_millis(arg.parse().unwrap_or(0))),
             "exit" => std::process::exit(arg.parse().unwrap_or(0)),
             "kill" => unsafe {
@@ -283,6 +297,16 @@ pub fn scenarios(thorough: bool) -> Vec<Scenario> {
         add("half-output-sigsegv", Some("read:all;write:half;kill:11"), "stub", "default", true);
         add("partial-output-without-reading-sigkill", Some("write:partial;kill:9"), "stub", "default", true);
         add("partial-output-without-reading-exit1", Some("write:partial;exit:1"), "stub", "child-first", true);
+        // a formatter that explains itself on stderr (one line, two lines, code-like lines, ~200 KB) before failing
+        add("stderr1-exit1", Some("read:all;stderr:1;exit:1"), "stub", "default", true);
+        add("stderr2-exit1", Some("read:all;stderr:2;exit:1"), "stub", "default", true);
+        add("stderr2-without-reading-exit1", Some("stderr:2;exit:1"), "stub", "child-first", true);
+        add("stderr-code-exit1", Some("read:all;stderr:rust;exit:1"), "stub", "default", true);
+        add("stderr-code-exit0-nothing", Some("read:all;stderr:rust;exit:0"), "stub", "default", true);
+        add("stderr2-sigkill", Some("read:all;stderr:2;kill:9"), "stub", "default", true);
+        add("stderr-big-exit1", Some("read:all;stderr:big;exit:1"), "stub", "default", true);
+        add("stderr-big-before-reading-exit1", Some("stderr:big;read:all;exit:1"), "stub", "default", true);
+        add("stderr2-then-genuine", Some("read:all;stderr:2;write:real;exit:0"), "stub", "default", false);
         add("slow-genuine", Some("read:all;sleep:300;write:real;exit:0"), "stub", "default", false);
         add("genuine-via-stub", Some("read:all;write:real;exit:0"), "stub", "default", false);
         if thorough {
@@ -431,7 +455,7 @@ pub fn run(tier: &str) -> i32 {
     rep.set("token_string_base_bytes", json!(base));
     rep.sample(json!({"scenario": scs[3].key, "script": scs[3].script}));
     rep.sample(json!({"scenario": scs[scs.len() - 1].key, "script": scs[scs.len() - 1].script}));
-    rep.rule = format!("{} formatter scenarios = behaviours {{genuine, absent, not executable, read all->exit 1/3, exit 0/1 without reading, killed before reading, close stdin early, read 1/100/65536 bytes->exit 1, read all->SIGKILL/SIGSEGV/SIGTERM, read all->exit 0 printing nothing (immediately / after a delay), partial or half of the formatted output followed by SIGKILL/SIGTERM/SIGSEGV/exit 1, slow genuine, genuine then exit 1}} x token-string sizes {:?} (exact, by padding a comment of the embedded source) x order {{default race, formatter terminated before the parent's write (ordering hook waits for the zombie)}}; plus formatter on vs off on {} program/configuration pairs with the genuine rustfmt. Oracle: always Ok, no panic, no hang (20 s cap), returned text token-equal to the unformatted program (a trailing comma before a closing delimiter is not a token difference). A case is non-trivial when the child produced a verdict.", scs.len(), if thorough { vec![1400, 65535, 65536, 65537, 300000] } else { vec![1400, 65537] }, items.len());
+    rep.rule = format!("{} formatter scenarios = behaviours {{genuine, absent, not executable, read all->exit 1/3, exit 0/1 without reading, killed before reading, close stdin early, read 1/100/65536 bytes->exit 1, read all->SIGKILL/SIGSEGV/SIGTERM, read all->exit 0 printing nothing (immediately / after a delay), partial or half of the formatted output followed by SIGKILL/SIGTERM/SIGSEGV/exit 1, stderr output of 1 / 2 / code-like / ~200 KB lines before failing (and before succeeding), slow genuine, genuine then exit 1}} x token-string sizes {:?} (exact, by padding a comment of the embedded source) x order {{default race, formatter terminated before the parent's write (ordering hook waits for the zombie)}}; plus formatter on vs off on {} program/configuration pairs with the genuine rustfmt. Oracle: always Ok, no panic, no hang (20 s cap), returned text token-equal to the unformatted program (a trailing comma before a closing delimiter is not a token difference). A case is non-trivial when the child produced a verdict.", scs.len(), if thorough { vec![1400, 65535, 65536, 65537, 300000] } else { vec![1400, 65537] }, items.len());
     rep.assumptions.push("a genuine rustfmt is on PATH".into());
     rep.finish()
 }
